@@ -4,7 +4,7 @@ from srcgen import regen_src  # pre-build generator: Go source -> Gen/SrcPure.v
 PROP = {
     "confirm_scenarios": ['timed', 'noread', 'steady'],
     "pre": [regen_src],
-    "coq": ["C07", "C07b", "C07c", "C05t", "C12t"],
+    "coq": ["C07", "C07b", "C07c", "C05t", "C12t", "C07t"],
     "exhaustive": False,
     "rule": "timed (REAL time, timeout 150 ms; thorough: 100/150/250 ms): one public client call (8 small read/write operations, valid "
             "arguments) against a peer that plays a timed stream, on: tcp and rtuovertcp (19200, 115200 bps) attached to the scripted "
